@@ -111,6 +111,20 @@ def build_corpus(rep, seed, n_grammars, max_units, bits_share=0.15, bytes_share=
             outside = extra_out[:80] + outside
         if len(inside) > 150:
             inside = rnd.sample(inside, 150)
+        if g["flavour"] == "bytes":
+            # a word of a binary grammar whose derivations consist of text literals only is also a word when it is given as
+            # text: both spellings go through the SAME spec object, one after the other
+            from harness.langenum import leaves_of
+            for w in list(inside):
+                ders = e.words.get(w, [])
+                if ders and all(k == "text" for d in ders for k, _v in leaves_of(d)):
+                    try:
+                        ws = w.decode("utf-8")
+                    except UnicodeDecodeError:
+                        continue
+                    if ws and ws not in e.words:
+                        e.words[ws] = ders
+                        inside.append(ws)
         cases.append({"gid": k, "g": g, "spec": gen.render(g), "enum": e, "inside": inside, "outside": outside})
     return cases
 
